@@ -1180,7 +1180,7 @@ class shimmed:
 
     def __enter__(self):
         for mod, names in self.spec.items():
-            items = names.items() if _isinstance(names, dict) else [(n, SHIMS[n]) for n in names]
+            items = names.items() if _isinstance(names, dict) else [(n, SHIMS[n]) if _isinstance(n, str) else n for n in names]
             for n, obj in items:
                 had = n in mod.__dict__
                 self.saved.append((mod, n, had, mod.__dict__.get(n)))
@@ -1197,7 +1197,7 @@ class shimmed:
         return False
 
     def describe(self):
-        return {m.__name__: sorted(n if _isinstance(n, dict) else list(n)) for m, n in self.spec.items()}
+        return {m.__name__: sorted((x if _isinstance(x, str) else x[0]) for x in n) for m, n in self.spec.items()}
 
 
 # --------------------------------------------------------------------------
